@@ -188,6 +188,11 @@ def SessionRecord.resetLists (p : SessionRecord) : SessionRecord :=
 
 /-! ## the journal reader as `session.recover` consumes it -/
 
+/-- what the consumer has seen of a record that ends with `io.ErrUnexpectedEOF` -/
+def partialOf : Option Bytes → List (Bytes × Bool)
+  | some acc => [(acc, false)]
+  | none => []
+
 open GoLevel.Journal in
 /-- Like `Journal.decodeLoop`, but for a consumer that reads the record incrementally: a record whose
     later chunk is missing or damaged is delivered as the payload of its good leading chunks with
@@ -196,15 +201,10 @@ open GoLevel.Journal in
 def readLoop (strict checksum : Bool) (st : RState) (cur : Option Bytes) : List (Bytes × Bool) × End :=
   match _h : nextChunk strict checksum cur.isNone st with
   | .eof => ([], .eof)
-  | .corrupt _ _ =>
-    match cur with
-    | some acc => ([(acc, false)], .corrupt)
-    | none => ([], .corrupt)
+  | .corrupt _ _ => (partialOf cur, .corrupt)
   | .skip _ _ st' =>
     let r := readLoop strict checksum st' none
-    match cur with
-    | some acc => ((acc, false) :: r.1, r.2)
-    | none => r
+    (partialOf cur ++ r.1, r.2)
   | .ok payload last st' =>
     let acc := cur.getD [] ++ payload
     if last then
